@@ -1321,6 +1321,71 @@ func runC17(c *Ctx) {
 				}
 			}
 		}
+		// (B'') ExpandSchema(schema, root, cache): one cache with a history (an earlier, finished call against an
+		// older revision of the root: same definition names, other content) shared by goroutines that all expand
+		// against the current root
+		{
+			var w *refgraph.World
+			for {
+				w = refgraph.Generate(c.Rng, refgraph.Options{Docs: 1, Defs: 5, RefP: 0.8})
+				if g := w.BuildGraph(); len(g.Missing) == 0 && !g.Cyclic() && len(rootElements(w, "definitions", "schemaRoot")) > 1 {
+					break
+				}
+			}
+			old := w.Clone()
+			{
+				root := w.Docs[w.Root]
+				defs, _ := root.Get("definitions")
+				nd := defs
+				for _, m := range defs.O {
+					if m.V.Kind == wire.Obj {
+						if _, isRef := m.V.Get("$ref"); !isRef {
+							nd = nd.Set(m.K, m.V.Set("title", wire.StrV("older revision of "+m.K)))
+						}
+					}
+				}
+				old.Docs[w.Root] = root.Set("definitions", nd)
+			}
+			els := rootElements(w, "definitions", "schemaRoot")
+			refs := make([]entryResult, len(els))
+			for i := range els {
+				refs[i] = runEntry(w, els[i], nil, nil)
+			}
+			shared := spec.VerifDefaultCache()
+			for _, call := range rootElements(old, "definitions", "schemaRoot") {
+				runEntry(old, call, shared, nil)
+			}
+			bad := make([]string, n)
+			var wg sync.WaitGroup
+			_, hang := timed(90*time.Second, func() {
+				for i := 0; i < n; i++ {
+					wg.Add(1)
+					go func(i int) {
+						defer wg.Done()
+						for k := 0; k < 6; k++ {
+							j := (i + k) % len(els)
+							got := runEntry(w, els[j], shared, nil)
+							if got.Panic != "" || got.Hang || got.Err != refs[j].Err || got.Out != refs[j].Out {
+								bad[i] = fmt.Sprintf("/%s: alone %s %s, here %s %s %s", strings.Join(els[j].Path, "/"), clip(refs[j].Out), refs[j].Err, clip(got.Out), got.Err, got.Panic)
+							}
+						}
+					}(i)
+				}
+				wg.Wait()
+			})
+			c.Count(fmt.Sprint("B''", worldJSON(w), n), true)
+			c.Hit("scenario:shared-cache-with-history")
+			cs := map[string]interface{}{"world": worldJSON(w), "older-revision": worldJSON(old), "goroutines": n, "scenario": "ExpandSchema against one root, sharing a cache that an earlier call against an older revision has used"}
+			if hang {
+				c.Fail(Failure{Kind: "crash", Sig: "C17:deadlock", What: "concurrent ExpandSchema calls sharing a cache did not finish within 90 s", Case: cs})
+			}
+			for _, b := range bad {
+				if b != "" {
+					c.Fail(Failure{Kind: "oracle", Sig: "C17:concurrent-result-differs", What: "an ExpandSchema call sharing a cache with concurrent calls against the same root differs from its result alone: " + b, Case: cs})
+					break
+				}
+			}
+		}
 		// (C) shared immutable document: encoders and pointer lookups
 		{
 			w := refgraph.Generate(c.Rng, refgraph.Options{Docs: 1, Defs: 4, Elements: true, RefP: 0.4})
